@@ -85,6 +85,10 @@ class Contract(object):
 def contract(qualname, **kw):
     c = Contract(qualname, **kw)
     assert qualname not in CONTRACTS, 'duplicate contract %s' % qualname
+    _known = {'native', 'facts_after', 'functional', 'exit_facts', 'substitute', 'result_alias', 'entry_types', 'defined_when', 'closure',
+              'use', 'region', 'assume_after', 'inline', 'mutable_fields', 'signature', 'fuel', 'global_alias', 'never_returns'}
+    unknown = set(c.opts) - _known
+    assert not unknown, 'contract %s: unknown opts %r (a misspelt option would be ignored silently)' % (qualname, sorted(unknown))
     CONTRACTS[qualname] = c
     return c
 
